@@ -1,0 +1,40 @@
+// SPDX-License-Identifier: (Apache-2.0 OR MIT)
+
+//! Observation hooks for external verification tooling. Compiled only with `--cfg rbpf_verif`
+//! (and the `std` feature); without that flag this module does not exist and the call sites
+//! compile to nothing.
+
+use std::cell::{Cell, RefCell};
+
+/// Called by the interpreter before each instruction is executed, with the index of the
+/// instruction about to run, the register file, the current call depth and the address of the
+/// first byte of the eBPF stack. Returning `false` makes `execute_program` return an error
+/// (instruction budget).
+pub type StepHook = Box<dyn FnMut(usize, &[u64; 11], usize, *const u8) -> bool>;
+
+thread_local! {
+    static STEP: RefCell<Option<StepHook>> = const { RefCell::new(None) };
+    static JIT_SIZES: Cell<(usize, usize, usize)> = const { Cell::new((0, 0, 0)) };
+}
+
+/// Install (or remove) the per-thread interpreter step hook.
+pub fn set_step_hook(hook: Option<StepHook>) {
+    STEP.with(|s| *s.borrow_mut() = hook);
+}
+
+pub(crate) fn step(insn_ptr: usize, reg: &[u64; 11], depth: usize, stack: *const u8) -> bool {
+    STEP.with(|s| match s.borrow_mut().as_mut() {
+        Some(f) => f(insn_ptr, reg, depth, stack),
+        None => true,
+    })
+}
+
+/// `(bytes counted by the sizing pass, bytes emitted by the second pass, buffer length)` of the
+/// most recent x86-64 JIT compilation on this thread.
+pub fn last_jit_sizes() -> (usize, usize, usize) {
+    JIT_SIZES.with(|c| c.get())
+}
+
+pub(crate) fn record_jit_sizes(counted: usize, emitted: usize, buffer: usize) {
+    JIT_SIZES.with(|c| c.set((counted, emitted, buffer)));
+}
